@@ -72,6 +72,13 @@ def run_tm(case):
     return compare("tm", lambda T, n: tm_words_up_to_n(T, n, k), lambda T, w: tm_accepts_word(T, w, k), case["tm"]["S"], case["n"], BT.mk_tm(case["tm"]), with_generate=False)
 
 
+@st.composite
+def tm_default_cases(draw, tier):
+    if draw(st.booleans()):
+        return {"tm": draw(GT.walker_tm_specs()), "n": draw(st.sampled_from([0, 1, 2])), "k": 1000}
+    return draw(tm_cases(tier))
+
+
 def run_tm_default(case):
     # generate_language uses the default budget of 1000 steps on both sides
     return compare("tm", tm_words_up_to_n, tm_accepts_word, case["tm"]["S"], case["n"], BT.mk_tm(case["tm"]))
@@ -178,7 +185,8 @@ CLAUSES = [
     Clause("cfg_deep", cfg_deep_cases, run_cfg_deep, quick=120, thorough=1200, watchdog=120,
            rule="mutually recursive CNF grammars (random with 3-6 variables, and a template of 2-3 mutually recursive variables with base cases of different lengths) over two or three terminals x larger bounds n in {4,...,7}: " + R),
     Clause("tm", tm_cases, run_tm, quick=400, thorough=3000, rule="random TMs x step budgets {0,1,3,10,50,1000} (same budget on both sides) " + R),
-    Clause("tm_default_budget", tm_cases, run_tm_default, quick=60, thorough=400, rule="random TMs with the default budget of 1000 steps (the one generate_language uses) " + R),
+    Clause("tm_default_budget", tm_default_cases, run_tm_default, quick=60, thorough=400,
+           rule="random TMs and 'walker' machines that need 150-1100 steps on short words, with the default budget of 1000 steps (the one generate_language uses) " + R),
     Clause("pda", pda_cases, run_pda, quick=350, thorough=3000, rule="random/structured PDAs x closure limits {1,2,5,30,200} (and 1000 in the thorough tier) " + R + "; when a closure exceeds the limit only soundness is asserted"),
     Clause("wordset", wordset_cases, run_wordset, quick=100, thorough=500, rule="generate_language on a set of strings returns it unchanged"),
 ]
